@@ -61,6 +61,9 @@ class Overlap2D(Case):
         def pre(V):
             cs = (seq_pre(V, 'f1', 'l1', 's1', M, m) + seq_pre(V, 'g1', 'h1', 't1', N, n) + seq_pre(V, 'f2', 'l2', 's2', M, m) + seq_pre(V, 'g2', 'h2', 't2', N, n))
             if not noalias: cs += [V[x + '1'] == V[x + '2'] for x in 'flsght']
+            if T in IT and op == '/=':
+                w = CT[T][1]
+                for i in range(M * N): cs += [V.el('a', i) != 0, V.el('a', i) != mask(-1, w)]
             return cs
         Case.__init__(s, f'ov2{"" if noalias else "s"}_{SHORT[T]}_{M}x{N}_{m}x{n}_{OPN[op]}', [a] + sc, k, r, desc=f'2-D overlapping view assignment {op} on {M}x{N}, extent {m}x{n} {T}', pre=pre)
         s.dom = 'uf' if T in FT else 'bits'; s.uf_int = T in IT; s.max_paths = 600; s.timeout = 30; s.weight = 40; s.budget = 300
@@ -121,6 +124,7 @@ def cases(tier, cfg, seed):
             if not (T in IT and op in ('*=', '/=')) and (tier != 'quick' or cfg.isa == 'avx2' or op == '='): out.append(Overlap1D(T, 9, 4, op, 'view', neg=True))
         out.append(Overlap1D(T, 9, 3, '=', 'view', twice=True)); out.append(Overlap1D(T, 9, 3, '+=', 'view', twice=True))
         for op in (() if tier == 'quick' else OPS):
+            if T in IT and op in ('*=', '/='): continue          # as in 1-D: bit-blasted mul/div inside symbolic-address ite chains; fixed ranges cover them
             out.append(Overlap2D(T, 4, 5, 2, 2, op))
             out.append(Overlap2D(T, 3, 9, 2, 4, op, noalias=False))
         if tier != 'quick': out.append(Overlap2D(T, 4, 9, 2, 4, '='))
